@@ -113,7 +113,7 @@ func prefixValidatorTable(p *Program) (map[string]*ssa.Function, *validatorSourc
 	names := ConstNames(tpk, scType.Type())
 	out := map[string]*ssa.Function{}
 	if vs.Global != nil {
-		lit, err := p.VarLit("template", vs.Global.Name())
+		lit, err := p.VarLit("template", cname(vs.Global))
 		if err != nil {
 			return nil, vs, err
 		}
